@@ -341,14 +341,27 @@ def run_controls(prog: Program):
 def check(run, prog: Program, pid, rule="RS"):
     """Adds the obligations of rule RS to a property's run."""
     res = analyse(prog)
+    # relevance: the functions this property's rules actually entered (the evaluators' inlining records and the functions
+    # the rule modules declared as analysed), plus the anchored functions themselves
+    from .symeval import ALL_EVALUATORS
+    entered = set(run.analysed["functions"])
+    for ev_ in ALL_EVALUATORS:
+        if ev_.prog is prog or getattr(ev_.prog, "repo", None) == prog.repo:
+            entered |= set(ev_.touched)
     roots = anchor_functions(prog, pid)
-    loaded = closure_reads(prog, roots) if roots else set()
+    fmap = {f"{f.module}:{f.qualname}": f for f in prog.all_functions}
+    funcs = [fmap[k] for k in entered if k in fmap] + roots
+    loaded = set()
+    for f in funcs:
+        for n in ast.walk(f.node):
+            if isinstance(n, ast.Attribute) and isinstance(n.ctx, ast.Load):
+                loaded.add(n.attr)
     run.extra.setdefault("state_coherence", {})
     run.extra["state_coherence"] = {
         "classes_examined": res["classes"], "attribute_stores_examined": res["stores"],
         "derived_attributes": [dict(d) for d in res["derived"]],
         "not_decided": [dict(d) for d in res["undecided"]],
-        "anchor_functions": len(roots),
+        "functions_entered_by_this_property": len(funcs),
     }
     fired, silent = run_controls(prog)
     run.ob(rule, "pulsarbat/core.py Signal", "control: a property memoising 1/self.sample_rate without invalidation / with a reset in the sample_rate setter",
